@@ -21,6 +21,11 @@ let n_of_u64_string (s : String.t) : n =
 let rec i64_of_pos (p : positive) : int64 =
   match p with XH -> 1L | XO q -> Int64.shift_left (i64_of_pos q) 1 | XI q -> Int64.logor (Int64.shift_left (i64_of_pos q) 1) 1L
 let i64_of_n (x : n) : int64 = match x with N0 -> 0L | Npos p -> i64_of_pos p
+let n_of_i64 (v : int64) : n =
+  let rec go (v : int64) : positive =
+    if v = 1L then XH
+    else let q = go (Int64.shift_right_logical v 1) in if Int64.logand v 1L = 0L then XO q else XI q in
+  if v = 0L then N0 else Npos (go v)
 let u64_string (x : n) : String.t = Printf.sprintf "%Lu" (i64_of_n x)
 
 let bytes_of_string (s : String.t) : n list =
@@ -121,6 +126,112 @@ let load_dfas dump : (int, n list list * n list) Hashtbl.t =
      | _ -> failwith "regex_dfa.txt")
   done; h
 
+(* ---------- ORACLE: str::parse::<f64> (core::num::dec2flt grammar; value by strtod = correctly rounded) ---------- *)
+let is_digit c = c >= '0' && c <= '9'
+let float_parse_str (s : String.t) : int64 option =
+  let len = String.length s in
+  if len = 0 then None else
+  let neg = s.[0] = '-' in
+  let st = if s.[0] = '-' || s.[0] = '+' then 1 else 0 in
+  if st = len then None else
+  let rest = String.sub s st (len - st) in
+  let n = String.length rest in
+  let i = ref 0 in
+  let nd = ref 0 in
+  while !i < n && is_digit rest.[!i] do incr i; incr nd done;
+  if !i < n && rest.[!i] = '.' then begin incr i; while !i < n && is_digit rest.[!i] do incr i; incr nd done end;
+  let ok_number =
+    if !nd = 0 then false
+    else if !i = n then true
+    else if rest.[!i] = 'e' || rest.[!i] = 'E' then begin
+      incr i;
+      if !i < n && (rest.[!i] = '+' || rest.[!i] = '-') then incr i;
+      let d0 = !i in
+      while !i < n && is_digit rest.[!i] do incr i done;
+      !i > d0 && !i = n
+    end else false in
+  if ok_number then begin
+    (* strtod does not like "1." followed by e? it does; ".5" fine.  OCaml's float_of_string needs a digit before an
+       exponent and accepts "1." and ".5" *)
+    let v = float_of_string (if rest.[0] = '.' then "0" ^ rest else rest) in
+    let v = if neg then -. v else v in
+    Some (Int64.bits_of_float v)
+  end else begin
+    let l = String.lowercase_ascii rest in
+    if l = "nan" then Some (if neg then 0xfff8000000000000L else 0x7ff8000000000000L)
+    else if l = "inf" || l = "infinity" then Some (if neg then 0xfff0000000000000L else 0x7ff0000000000000L)
+    else None
+  end
+let float_parse (b : n list) : n option =
+  match float_parse_str (string_of_bytes b) with Some bits -> Some (n_of_i64 bits) | None -> None
+
+(* ---------- ORACLE: f64::to_string (Display: shortest digits that round-trip, positional notation) ---------- *)
+let dec_bump (m : String.t) (d : int) : String.t option =
+  (* decimal digit string +/- 1 *)
+  let b = Bytes.of_string m in
+  let n = Bytes.length b in
+  if d = 1 then begin
+    let i = ref (n - 1) in
+    while !i >= 0 && Bytes.get b !i = '9' do Bytes.set b !i '0'; decr i done;
+    if !i < 0 then Some ("1" ^ Bytes.to_string b)
+    else (Bytes.set b !i (Char.chr (Char.code (Bytes.get b !i) + 1)); Some (Bytes.to_string b))
+  end else begin
+    let i = ref (n - 1) in
+    while !i >= 0 && Bytes.get b !i = '0' do Bytes.set b !i '9'; decr i done;
+    if !i < 0 then None
+    else (Bytes.set b !i (Char.chr (Char.code (Bytes.get b !i) - 1));
+          if Bytes.get b 0 = '0' then None else Some (Bytes.to_string b))
+  end
+let float_fmt_str (bits : int64) : String.t =
+  let v = Int64.float_of_bits bits in
+  if v <> v then "NaN"
+  else if v = infinity then "inf" else if v = neg_infinity then "-inf"
+  else begin
+    let neg = Int64.compare bits 0L < 0 in
+    let a = Float.abs v in
+    if a = 0.0 then (if neg then "-0" else "0") else begin
+      (* shortest p such that a p-digit decimal round-trips; prefer the correctly rounded one, else a neighbour *)
+      let result = ref None in
+      let p = ref 1 in
+      while !result = None && !p <= 17 do
+        let s = Printf.sprintf "%.*e" (!p - 1) a in
+        (* s = d.ddddde[+-]XX *)
+        let epos = String.index s 'e' in
+        let mant = String.concat "" (String.split_on_char '.' (String.sub s 0 epos)) in
+        let ex = int_of_string (String.sub s (epos + 1) (String.length s - epos - 1)) in
+        let try_m (m : String.t) (ex : int) =
+          let txt = Printf.sprintf "%s.%se%d" (String.sub m 0 1) (String.sub m 1 (String.length m - 1) ^ "0") ex in
+          if float_of_string txt = a then Some (m, ex) else None in
+        let bump (m : String.t) (d : int) : (String.t * int) option =
+          (* m +/- 1 in the last place *)
+          let z = dec_bump m d in
+          match z with
+          | None -> None
+          | Some m' -> if String.length m' > String.length m then Some (String.sub m' 0 (String.length m), ex + 1) else Some (m', ex) in
+        (match try_m mant ex with
+         | Some r -> result := Some r
+         | None ->
+           (match bump mant 1 with Some (m', e') -> (match try_m m' e' with Some r -> result := Some r | None -> ()) | None -> ());
+           if !result = None then
+             (match bump mant (-1) with Some (m', e') -> (match try_m m' e' with Some r -> result := Some r | None -> ()) | None -> ()));
+        incr p
+      done;
+      let (digits, ex) = match !result with Some r -> r | None -> failwith "float_fmt" in
+      (* strip trailing zeros of the digit string *)
+      let digits = let k = ref (String.length digits) in
+        while !k > 1 && digits.[!k - 1] = '0' do decr k done; String.sub digits 0 !k in
+      let nd = String.length digits in
+      let e = ex + 1 in   (* value = 0.digits * 10^e *)
+      let body =
+        if e <= 0 then "0." ^ String.make (-e) '0' ^ digits
+        else if e >= nd then digits ^ String.make (e - nd) '0'
+        else String.sub digits 0 e ^ "." ^ String.sub digits e (nd - e) in
+      (if neg then "-" else "") ^ body
+    end
+  end
+let float_fmt (b : n) : n list = bytes_of_string (float_fmt_str (i64_of_n b))
+
+
 let index_of_name (arr : String.t array) (s : String.t) : int =
   let r = ref (-1) in Array.iteri (fun i x -> if x = s then r := i) arr;
   if !r < 0 then failwith ("name not in table: " ^ s) else !r
@@ -154,6 +265,35 @@ let err_name (e : err) : String.t = match e with
   | DuplicateFilenameError -> "DuplicateFilenameError" | EmptyFile -> "EmptyFile" | InvalidFileMerge -> "InvalidFileMerge"
   | OverlappingDataError -> "OverlappingDataError" | LoadError -> "LoadError"
 
+let pkind_name (k : pkind) : String.t = match k with
+  | InvalidArxmlFileHeader -> "InvalidArxmlFileHeader"
+  | UnexpectedXmlFileHeader -> "UnexpectedXmlFileHeader"
+  | UnknownAutosarVersion -> "UnknownAutosarVersion"
+  | InvalidAutosarVersion -> "InvalidAutosarVersion"
+  | IncorrectBeginElement -> "IncorrectBeginElement"
+  | InvalidBeginElement -> "InvalidBeginElement"
+  | IncorrectEndElement -> "IncorrectEndElement"
+  | InvalidEndElement -> "InvalidEndElement"
+  | ElementChoiceConflict -> "ElementChoiceConflict"
+  | ElementVersionError -> "ElementVersionError"
+  | TooManySubElements -> "TooManySubElements"
+  | RequiredSubelementMissing -> "RequiredSubelementMissing"
+  | AttributeValueError -> "AttributeValueError"
+  | UnknownAttributeError -> "UnknownAttributeError"
+  | AttributeVersionError -> "AttributeVersionError"
+  | RequiredAttributeMissing -> "RequiredAttributeMissing"
+  | CharacterContentForbidden -> "CharacterContentForbidden"
+  | EnumItemVersionError -> "EnumItemVersionError"
+  | UnknownEnumItem -> "UnknownEnumItem"
+  | InvalidEnumItem -> "InvalidEnumItem"
+  | StringValueTooLong -> "StringValueTooLong"
+  | RegexMatchError -> "RegexMatchError"
+  | Utf8Error -> "Utf8Error"
+  | UnexpectedEndOfFile -> "UnexpectedEndOfFile"
+  | InvalidNumber -> "InvalidNumber"
+  | AdditionalDataError -> "AdditionalDataError"
+  | InvalidXmlEntity -> "InvalidXmlEntity"
+
 exception Stop of String.t   (* PANIC / HANG / FUEL in a query or op *)
 type ('a, 'b) rr = ROk of 'a | RErr of 'b
 
@@ -174,7 +314,7 @@ let () =
   let t = load_spec dump in
   let (tab_el, el_names) = load_names dump "Element" in
   let (tab_en, _) = load_names dump "Enum" in
-  let (_, at_names) = load_names dump "Attr" in
+  let (tab_at, at_names) = load_names dump "Attr" in
   let dfas = load_dfas dump in
   let dfa_fn (k : n) = Hashtbl.find_opt dfas (int_of_n k) in
   let check_fn = check_fn_model dfa_fn in
@@ -190,7 +330,9 @@ let () =
   let root_attrs = [ (aid "xsi:schemaLocation", DString (bytes_of_string ("http://autosar.org/schema/r4.0 " ^ latest_file)));
                      (aid "xmlns", DString (bytes_of_string "http://autosar.org/schema/r4.0"));
                      (aid "xmlns:xsi", DString (bytes_of_string "http://www.w3.org/2001/XMLSchema-instance")) ] in
-  ignore el_names;
+  let name_index = n_of_int (index_of_name el_names "INDEX") in
+  let name_defref = n_of_int (index_of_name el_names "DEFINITION-REF") in
+  let attr_schema = aid "xsi:schemaLocation" in
   let latest = n_of_int latest_v in
   let lines = read_lines script in
   (* per-script state *)
@@ -199,6 +341,7 @@ let () =
   let handles : n list ref = ref [] in       (* handle k = k-th element *)
   let probes : n list list ref = ref [] in
   let stopped = ref false in
+  let serialize_obs = ref false in
   let hsh = ref fnv_init in
   let nlines = ref 0 in
   let out (s : String.t) = hsh := fnv_add (fnv_add !hsh s) "\n"; incr nlines; if verbose then print_endline s in
@@ -208,6 +351,7 @@ let () =
   let ints_sorted l = String.concat "," (List.map string_of_int (List.sort compare l)) in
   let handle_index (i : n) : int = let rec go k = function [] -> 1000000 | x :: r -> if x = i then k else go (k + 1) r in go 0 !handles in
   let hlist_sorted (l : n list) = String.concat "," (List.map (fun k -> if k = 1000000 then "h?" else Printf.sprintf "h%d" k) (List.sort compare (List.map handle_index l))) in
+  let text_digest (s : n list) = let t = string_of_bytes s in Printf.sprintf "%d:%016Lx" (String.length t) (fnv_add fnv_init t) in
   let res_str f = function ROk a -> "ok:" ^ f a | RErr e -> "err:" ^ e in
   let observe () =
     let wv = !w in
@@ -246,8 +390,48 @@ let () =
       let mv = res_str (fun v -> string_of_int (int_of_n v)) (q wv (q_min_version latest i)) in
       out (Printf.sprintf "H %d par=%s pos=%s path=%s model=%s fm=%s name=%s ident=%d cd=%s reft=%s minver=%s" k par pos path md fm nm ident cd reft mv)
     ) !handles;
-    List.iteri (fun k f -> out (Printf.sprintf "F %d model=%d ver=%d" k (int_of_n f.f_model) (int_of_n f.f_version))) wv.w_files
+    List.iteri (fun k f -> out (Printf.sprintf "F %d model=%d ver=%d" k (int_of_n f.f_model) (int_of_n f.f_version))) wv.w_files;
+    if !serialize_obs then
+      List.iteri (fun k _ ->
+        match q_serialize_file t tab_el tab_at tab_en check_fn float_fmt attr_schema (n_of_int k) !w with
+        | Val (OK s, w') -> w := w'; out (Printf.sprintf "X %d ok:%s" k (text_digest s));
+          if verbose then print_endline ("  text: " ^ String.escaped (string_of_bytes s))
+        | Val (ER e, w') -> w := w'; out (Printf.sprintf "X %d err:%s" k (err_name e))
+        | Pan _ -> raise (Stop "PANIC")
+        | Fuel -> raise (Stop "HANG")) wv.w_files
   in
+  let show_perror (e : perror) : String.t = match e with
+    | ErrLex (line, _) -> Printf.sprintf "L@%d" (int_of_n line)
+    | ErrParse (line, k, _, _) -> Printf.sprintf "P%s@%d" (pkind_name k) (int_of_n line) in
+  let run1 (o : op2) =
+      (try
+        (match run_op2 t tab_el tab_at tab_en check_fn float_parse float_fmt latest name_index name_defref attr_schema root_attrs o !w with
+         | Val (r, w') ->
+           w := w';
+           let res_elem = match r with OK (V1 (VElem e)) -> Some e | _ -> None in
+           handles := discover !w !handles res_elem;
+           (match r with
+            | OK (V1 VUnit) -> out "R OK"
+            | OK (V1 (VElem e)) -> out ("R OK " ^ hnum e)
+            | OK (V1 (VBool b)) -> out (if b then "R OK b1" else "R OK b0")
+            | OK (V1 (VFile f)) -> out (Printf.sprintf "R OK f%d" (int_of_n f))
+            | OK (V1 (VModel m)) -> out (Printf.sprintf "R OK m%d" (int_of_n m))
+            | OK (VText s) -> out ("R OK text " ^ text_digest s); if verbose then print_endline ("  text: " ^ String.escaped (string_of_bytes s))
+            | OK (VCompat (errs, mask)) ->
+              out (Printf.sprintf "R OK compat mask=%d [%s]" (int_of_n mask)
+                     (String.concat ";" (List.map (function
+                        | CEAttr (e, a, m) -> Printf.sprintf "A:%s:%d:%d" (hnum e) (int_of_n a) (int_of_n m)
+                        | CEAttrValue (e, a, m) -> Printf.sprintf "V:%s:%d:%d" (hnum e) (int_of_n a) (int_of_n m)
+                        | CEElem (e, m) -> Printf.sprintf "E:%s:%d" (hnum e) (int_of_n m)) errs)))
+            | OK (VLoad (f, ws)) -> out (Printf.sprintf "R OK f%d warn=[%s]" (int_of_n f) (String.concat ";" (List.map show_perror ws)))
+            | ER e -> out ("R ERR " ^ err_name e));
+           observe ()
+         | Pan s -> let s = coqstr s in
+           out (if String.length s >= 4 && String.sub s 0 4 = "HANG" then "R HANG" else "R PANIC");
+           if verbose then print_endline ("  model site: " ^ s);
+           stopped := true
+         | Fuel -> out "R HANG"; stopped := true)
+      with Stop what -> out ("Q " ^ what); stopped := true) in
   let flush_script idx = if idx >= 0 then Printf.printf "S %d lines=%d %016Lx\n" idx !nlines !hsh in
   let cur = ref (-1) in
   let opt_hex s = if s = "-" then None else Some (unxh s) in
@@ -255,10 +439,11 @@ let () =
     match split_ws line with
     | ["SCRIPT"; k] ->
       flush_script !cur; cur := int_of_string k;
-      w := empty_world; handles := []; probes := []; stopped := false; hsh := fnv_init; nlines := 0;
+      w := empty_world; handles := []; probes := []; stopped := false; serialize_obs := false; hsh := fnv_init; nlines := 0;
       if verbose then Printf.printf "SCRIPT %d\n" !cur
     | "PATHS" :: ps -> probes := List.map unhexb ps
     | "PATHS-EMPTY" :: _ -> probes := [[]]
+    | ["OBSERVE"; "serialize"] -> serialize_obs := true
     | "OP" :: name :: a when not !stopped ->
       let i k = int_of_string (List.nth a k) in
       let ni k = n_of_int (i k) in
@@ -291,25 +476,21 @@ let () =
         | "add_to_file" -> OpAddToFile (h 0, ni 1)
         | "remove_from_file" -> OpRemoveFromFile (h 0, ni 1)
         | _ -> failwith ("unknown op " ^ name)) in
-      (try
-        (match run_op t tab_el tab_en check_fn latest root_attrs o !w with
-         | Val (r, w') ->
-           w := w';
-           let res_elem = match r with OK (VElem e) -> Some e | _ -> None in
-           handles := discover !w !handles res_elem;
-           (match r with
-            | OK VUnit -> out "R OK"
-            | OK (VElem e) -> out ("R OK " ^ hnum e)
-            | OK (VBool b) -> out (if b then "R OK b1" else "R OK b0")
-            | OK (VFile f) -> out (Printf.sprintf "R OK f%d" (int_of_n f))
-            | OK (VModel m) -> out (Printf.sprintf "R OK m%d" (int_of_n m))
-            | ER e -> out ("R ERR " ^ err_name e));
-           observe ()
-         | Pan s -> let s = coqstr s in
-           out (if String.length s >= 4 && String.sub s 0 4 = "HANG" then "R HANG" else "R PANIC");
-           if verbose then print_endline ("  model site: " ^ s);
-           stopped := true
-         | Fuel -> out "R HANG"; stopped := true)
-      with Stop what -> out ("Q " ^ what); stopped := true)
+      run1 (Op1 o)
+    | "OP2" :: name :: a when not !stopped ->
+      let i k = int_of_string (List.nth a k) in
+      let ni k = n_of_int (i k) in
+      let h k = hid (i k) in
+      let o = (match name with
+        | "sort" -> OpSort (h 0)
+        | "sort_model" -> OpSortModel (ni 0)
+        | "duplicate" -> OpDuplicate (ni 0)
+        | "load" -> OpLoad (ni 0, unxh (List.nth a 1), unxh (List.nth a 2), List.nth a 3 = "1")
+        | "set_version" -> OpSetVersion (ni 0, ni 1)
+        | "check_compat" -> OpCheckCompat (ni 0, ni 1)
+        | "serialize_file" -> OpSerializeFile (ni 0)
+        | "serialize_elem" -> OpSerializeElem (h 0)
+        | _ -> failwith ("unknown op2 " ^ name)) in
+      run1 o
     | _ -> ()) lines;
   flush_script !cur
